@@ -14,6 +14,14 @@ Theorem validate_sound :
 Proof. exact validate_sound_lemma. Qed.
 Print Assumptions validate_sound.
 
+(* the Python-level validate, too, only accepts values of the declared domain (every trait type with a
+   fast descriptor; corollary of C03's fast_eq_slow) *)
+Theorem py_validate_sound :
+  forall E d v w, sound_hyp E d = true -> c03_scope d = true -> benign E d v = true ->
+    py_validate E d v = Accept w -> dom E d w = true.
+Proof. exact py_validate_sound_lemma. Qed.
+Print Assumptions py_validate_sound.
+
 (* F18: without the hypothesis on Instance(C, allow_none=False) the statement is false *)
 Theorem validate_sound_refuted_none_instance :
   exists E d v w, wf_desc d = true /\ validate E d v = Accept w /\ dom E d w = false.
@@ -39,14 +47,16 @@ Proof. exact setattr_traiterror_no_effect. Qed.
 Print Assumptions reject_no_effect.
 
 (* any exception (TraitError or one of the value's own protocol) leaves every attribute as it
-   was, provided no Map/PrefixMap sits inside an Either (F19) and mapped defaults are keys *)
+   was, provided no Map/PrefixMap sits inside an Either (F19), mapped defaults are keys, and the value
+   is not the Undefined sentinel (which bypasses validation: F22) *)
 Theorem exception_no_effect :
-  forall E c s n v s' e, post_safe c = true -> setattr E c s n v = (s', Raise e) -> s' = s.
+  forall E c s n v s' e, is_undefined v = false -> post_safe c = true -> setattr E c s n v = (s', Raise e) -> s' = s.
 Proof. exact setattr_exception_no_effect. Qed.
 Print Assumptions exception_no_effect.
 
 Theorem failed_operation_no_effect :
-  forall E c s h n v s' e, post_safe c = true -> step E c s (h, [(n, v)]) = (s', Raise e) -> s' = s.
+  forall E c s h n v s' e, is_undefined v = false -> post_safe c = true ->
+    step E c s (h, [(n, v)]) = (s', Raise e) -> s' = s.
 Proof. exact step_failure_no_effect. Qed.
 Print Assumptions failed_operation_no_effect.
 
@@ -74,7 +84,7 @@ Print Assumptions only_own_protocol_exceptions.
 
 Theorem assignment_exception_is_traiterror_or_own :
   forall E c s n v s' e d dflt,
-    post_safe c = true -> trait_of c n = Some (d, dflt) -> wf_desc d = true ->
+    is_undefined v = false -> post_safe c = true -> trait_of c n = Some (d, dflt) -> wf_desc d = true ->
     setattr E c s n v = (s', Raise e) -> e = ETraitError \/ raises_own v e = true.
 Proof. exact setattr_exception_class. Qed.
 Print Assumptions assignment_exception_is_traiterror_or_own.
@@ -82,10 +92,22 @@ Print Assumptions assignment_exception_is_traiterror_or_own.
 (* invariant over every history of attribute assignments, trait_set calls and constructor keywords:
    whatever is readable under a trait name lies in that trait's declared domain *)
 Theorem no_out_of_domain_readable :
-  forall E c ops s, class_ok E c = true -> Inv E c s ->
+  forall E c ops s, ops_defined ops = true -> class_ok E c = true -> Inv E c s ->
     Forall (fun r => Inv E c (fst r)) (run E c s ops).
 Proof. intros E c ops s. exact (run_inv E c ops s). Qed.
 Print Assumptions no_out_of_domain_readable.
+
+(* F22: without ops_defined the invariant is false — setattr_trait skips validation for the Undefined
+   sentinel (ctraits.c:2446-2448), which is then stored and readable under any trait *)
+Theorem no_out_of_domain_readable_refuted_undefined :
+  exists E c n v s', class_ok E c = true /\ setattr E c [] n v = (s', Ok) /\
+    exists d dflt, trait_of c n = Some (d, dflt) /\ get s' n = Some v /\ dom E d v = false.
+Proof.
+  destruct undefined_bypass_lemma as (H1 & H2 & H3).
+  exists E0, [(0, (DInt, PInt 0))], 0, PUndefined, [(0, PUndefined)]. repeat split; auto.
+  exists DInt, (PInt 0). repeat split; auto.
+Qed.
+Print Assumptions no_out_of_domain_readable_refuted_undefined.
 
 Theorem fresh_instance_in_domain : forall E c, Inv E c [].
 Proof. exact inv_empty. Qed.
@@ -93,8 +115,9 @@ Print Assumptions fresh_instance_in_domain.
 
 (* The law itself — the five clauses that are evaluated on the implementation's observations — is []
    at every step of every history of the model: attribute assignments, trait_set calls with any
-   number of distinct keywords, constructor calls with keywords; started in any dictionary that
-   satisfies the two invariants (in particular a fresh instance). *)
+   number of distinct keywords, constructor calls with keywords ([op_ok]: distinct trait names, values other
+   than the Undefined sentinel); started in any dictionary that satisfies the two invariants (in particular
+   a fresh instance). *)
 Theorem law_holds_on_every_history :
   forall E c, class_ok E c = true -> post_safe c = true -> keys_unique c ->
   forall ops s i, Inv E c s -> ShInv c s -> Forall (op_ok c) ops ->
@@ -133,7 +156,7 @@ Proof.
   cbv zeta. split; [|split; [|split]].
   - intros n e [H|[H|[H|[]]]]; inversion H; reflexivity.
   - repeat constructor; cbn; try (intros [H|H]; [discriminate | tauto]); try tauto;
-      try (intros p [H|[H|[]]]; subst; cbn; eauto); try (intros p [H|[]]; subst; cbn; eauto).
+      try (intros p [H|[H|[]]]; subst; cbn; eauto); try (intros p [H|[]]; subst; cbn; eauto); try reflexivity.
   - vm_compute. reflexivity.
   - vm_compute. reflexivity.
 Qed.
